@@ -221,3 +221,166 @@ Proof.
 Qed.
 
 End PointCharge.
+
+(* ==================================================================================================== *)
+(* 2. MOMENTUM: the first-derivative operator on polynomial x Gaussian and its behaviour under substitution *)
+Section Grad.
+Context {F : Type} (K : Fops F) (Kf : is_field K).
+Add Field KFrmg : Kf.
+Local Open Scope F_scope.
+Notation "0" := (f0 K) : F_scope.
+Notation "1" := (f1 K) : F_scope.
+Infix "+" := (fadd K) : F_scope.
+Infix "*" := (fmul K) : F_scope.
+Infix "-" := (fsub K) : F_scope.
+Infix "/" := (fdiv K) : F_scope.
+Notation "- x" := (fopp K x) : F_scope.
+Notation "# n" := (ofnat K n) (at level 5) : F_scope.
+
+(* grad_k f = e^{beta u^2} d/du_k (f e^{-beta u^2}) = d_k f - 2 beta u_k f *)
+Definition gradop (k : axis) (beta : F) (f : poly3 (F:=F)) : poly3 (F:=F) :=
+  dv K k f ++ pscale3 K (- ((1 + 1) * beta)) (mulv k f).
+Definition gradT (k : axis) (beta : F) (J : mon -> F) : mon -> F := fun b => Jsum K J (gradop k beta (mono3 K b)).
+
+Lemma gradop_adjoint k beta :
+  adjoint K (gradop k beta) (fun J m => dvT K k J m + (- ((1 + 1) * beta)) * mulvT k J m).
+Proof.
+  unfold gradop.
+  apply (adjoint_app2 K Kf (dv K k) (dvT K k) (fun f => pscale3 K (- ((1 + 1) * beta)) (mulv k f))
+           (fun J m => (- ((1 + 1) * beta)) * mulvT k J m)).
+  - apply (Jsum_dv K Kf).
+  - apply (adjoint_scale K Kf _ (mulv k) (mulvT k)). apply (Jsum_mulv K).
+Qed.
+Lemma gradop_cong k beta f g : Poly3.peq K f g -> Poly3.peq K (gradop k beta f) (gradop k beta g).
+Proof. apply (adjoint_cong K _ _ (gradop_adjoint k beta)). Qed.
+Lemma Jsum_gradop k beta J f : Jsum K J (gradop k beta f) = Jsum K (gradT k beta J) f.
+Proof.
+  rewrite (gradop_adjoint k beta). apply Jsum_ext. intro b. unfold gradT.
+  rewrite (gradop_adjoint k beta). unfold mono3. cbn [Jsum fst snd]. ring.
+Qed.
+
+(* chain rule for the Gaussian-weighted derivative: Q^T Q = 1 (columns of Q orthonormal) *)
+Theorem gradop_subst (Q : axis -> axis -> F) k beta f J : orth_rows K (transpose Q) ->
+  Jsum K J (gradop k beta (subst K Q f))
+  = sum3 K (fun i => Q i k * Jsum K J (subst K Q (gradop i beta f))).
+Proof.
+  intros HO. unfold gradop. rewrite (Jsum_app K Kf), (dv_subst K Kf), (Jsum_pscale3 K Kf). unfold sum3.
+  rewrite !subst_app, !(Jsum_app K Kf), !(subst_pscale3 K Kf), !(Jsum_pscale3 K Kf), !(subst_mulv K Kf),
+    !(Jsum_mullin_exp K Kf).
+  pose proof (HO k AX) as H1. pose proof (HO k AY) as H2. pose proof (HO k AZ) as H3.
+  unfold sum3, transpose in H1, H2, H3.
+  set (c := - ((1 + 1) * beta)).
+  generalize (Jsum K J (subst K Q (dv K AX f))) (Jsum K J (subst K Q (dv K AY f)))
+    (Jsum K J (subst K Q (dv K AZ f))).
+  intros dx dy dz.
+  set (X := Jsum K J (mulv AX (subst K Q f))). set (Y := Jsum K J (mulv AY (subst K Q f))).
+  set (Z := Jsum K J (mulv AZ (subst K Q f))).
+  transitivity (Q AX k * dx + Q AY k * dy + Q AZ k * dz
+                + c * ((Q AX k * Q AX AX + Q AY k * Q AY AX + Q AZ k * Q AZ AX) * X
+                       + (Q AX k * Q AX AY + Q AY k * Q AY AY + Q AZ k * Q AZ AY) * Y
+                       + (Q AX k * Q AX AZ + Q AY k * Q AY AZ + Q AZ k * Q AZ AZ) * Z)); [|ring].
+  rewrite H1, H2, H3. unfold delta3, X, Y, Z. destruct k; cbn [axis_eqb]; ring.
+Qed.
+
+(* a covariant bilinear form B(a, b): when grad_k acts on the second index the result transforms as D x D on the
+   indices and as a VECTOR on k *)
+Theorem gradT_covariant (Q : axis -> axis -> F) beta (B B' : mon -> mon -> F) :
+  orth_rows K (transpose Q) ->
+  (forall a b, Jsum K (fun a' => Jsum K (fun b' => B' a' b') (subst_mon K Q b)) (subst_mon K Q a) = B a b) ->
+  forall k a b, Jsum K (fun a' => Jsum K (fun b' => gradT k beta (B' a') b') (subst_mon K Q b)) (subst_mon K Q a)
+                = sum3 K (fun i => Q i k * gradT i beta (B a) b).
+Proof.
+  intros HC Hcov k a b.
+  set (T := fun i a' => Jsum K (fun m => Jsum K (B' a') (subst_mon K Q m)) (gradop i beta (mono3 K b))).
+  rewrite (Jsum_ext K _ (fun a' => Q AX k * T AX a' + Q AY k * T AY a' + Q AZ k * T AZ a')).
+  2:{ intro a'. rewrite <- Jsum_gradop.
+      rewrite (gradop_cong k beta _ _ (Poly3.peq_sym K _ _ (subst_mono3 K Kf Q b))).
+      rewrite (gradop_subst Q k beta (mono3 K b) _ HC). unfold sum3, T, subst.
+      now rewrite !(Jsum_lift K Kf). }
+  rewrite !(Jsum_Jadd K Kf), !(Jsum_Jscale K Kf). unfold sum3.
+  assert (E : forall i, Jsum K (T i) (subst_mon K Q a) = gradT i beta (B a) b).
+  { intro i. unfold T. rewrite (Jsum_swap K Kf). unfold gradT. apply Jsum_ext. intro m. apply Hcov. }
+  now rewrite !E.
+Qed.
+
+End Grad.
+
+Section Momentum.
+Context {F : Type} (K : Fops F) (Kf : is_field K).
+Add Field KFrmm : Kf.
+Local Open Scope F_scope.
+Notation "0" := (f0 K) : F_scope.
+Notation "1" := (f1 K) : F_scope.
+Infix "+" := (fadd K) : F_scope.
+Infix "*" := (fmul K) : F_scope.
+Infix "-" := (fsub K) : F_scope.
+Infix "/" := (fdiv K) : F_scope.
+Notation "- x" := (fopp K x) : F_scope.
+Notation "# n" := (ofnat K n) (at level 5) : F_scope.
+
+(* the real matrix M_k of the momentum integral -i M_k, component k = x, y, z *)
+Definition momk (k : axis) : shell F -> shell F -> comp -> comp -> F -> F -> F :=
+  match k with AX => mom_x_prim K | AY => mom_y_prim K | AZ => mom_z_prim K end.
+
+Lemma Bop1_explicit beta (T : tfun (F:=F)) i j :
+  iterop (Bop K beta) 1 T i j = #j * T i (Nat.pred j) - (1 + 1) * beta * T i (S j).
+Proof. cbn [iterop]. unfold Bop. destruct j; cbn [Nat.sub Nat.pred]; rewrite ?Nat.sub_0_r; reflexivity. Qed.
+
+(* [mom_x_prim] ... of Proofs/CoreDiffP.v are the Gaussian-weighted derivative acting on the index of the right
+   function of the overlap *)
+Theorem mom_prim_is_gradT k sa sb ca cb alpha beta :
+  momk k sa sb ca cb alpha beta = gradT K k beta (fun b => ovl_prim K sa sb ca b alpha beta) cb.
+Proof.
+  destruct ca as [[ax ay] az]. destruct cb as [[bx by_] bz].
+  destruct k; unfold momk, mom_x_prim, mom_y_prim, mom_z_prim, D1; rewrite Bop1_explicit;
+    unfold gradT, gradop, mono3, S1, Sfun, ovl_prim, mom_prim, KAB, T1, cx, cy, cz;
+    cbn [fst snd dv mulv map app pscale3 Jsum bump mlower expo];
+    rewrite !(T3_c_irrelevant K _ _ _ (PC K _ _ _ _ _)); ring.
+Qed.
+
+Hypothesis Hexp : forall x y, fexp K (x + y) = fexp K x * fexp K y.
+
+(* GENERAL ROTATIONS, momentum of two primitives: D x D on the function indices, a VECTOR on the component *)
+Theorem momentum_prim_rotation_covariant R k sa sb ca cb alpha beta :
+  orthogonal K R -> psum K alpha beta <> 0 ->
+  Jsum K (fun a' => Jsum K (fun b' =>
+       momk k (rot_shell K R sa) (rot_shell K R sb) a' b' alpha beta)
+     (rot_expand K R cb)) (rot_expand K R ca)
+  = sum3 K (fun i => matf R k i * momk i sa sb ca cb alpha beta).
+Proof.
+  intros HO Hp.
+  rewrite (Jsum_ext K _ (fun a' => Jsum K (fun b' =>
+             gradT K k beta (fun b => ovl_prim K (rot_shell K R sa) (rot_shell K R sb) a' b alpha beta) b')
+             (rot_expand K R cb))).
+  2:{ intro a'. apply Jsum_ext. intro b'. apply mom_prim_is_gradT. }
+  unfold rot_expand.
+  rewrite (gradT_covariant K Kf (transpose (matf R)) beta
+           (fun a b => ovl_prim K sa sb a b alpha beta)
+           (fun a b => ovl_prim K (rot_shell K R sa) (rot_shell K R sb) a b alpha beta)).
+  - unfold sum3, transpose. now rewrite !mom_prim_is_gradT.
+  - exact (orthogonal_rows K R HO).
+  - intros a b. now apply (overlap_prim_rotation_covariant K Kf Hexp).
+Qed.
+
+(* the inverse form: the vector of D-contracted integrals of the rotated system, rotated back *)
+Corollary momentum_prim_rotation_covariant_inv R j sa sb ca cb alpha beta :
+  orthogonal K R -> psum K alpha beta <> 0 ->
+  sum3 K (fun k => matf R k j *
+    Jsum K (fun a' => Jsum K (fun b' =>
+         momk k (rot_shell K R sa) (rot_shell K R sb) a' b' alpha beta)
+       (rot_expand K R cb)) (rot_expand K R ca))
+  = momk j sa sb ca cb alpha beta.
+Proof.
+  intros HO Hp. unfold sum3 at 1. rewrite !(momentum_prim_rotation_covariant R _ sa sb ca cb alpha beta HO Hp).
+  pose proof (orthogonal_cols K R HO j AX) as H1. pose proof (orthogonal_cols K R HO j AY) as H2.
+  pose proof (orthogonal_cols K R HO j AZ) as H3. unfold sum3, transpose in *.
+  set (mx := momk AX sa sb ca cb alpha beta). set (my := momk AY sa sb ca cb alpha beta).
+  set (mz := momk AZ sa sb ca cb alpha beta).
+  transitivity ((matf R AX j * matf R AX AX + matf R AY j * matf R AY AX + matf R AZ j * matf R AZ AX) * mx
+              + (matf R AX j * matf R AX AY + matf R AY j * matf R AY AY + matf R AZ j * matf R AZ AY) * my
+              + (matf R AX j * matf R AX AZ + matf R AY j * matf R AY AZ + matf R AZ j * matf R AZ AZ) * mz);
+    [ring|].
+  rewrite H1, H2, H3. unfold delta3, mx, my, mz. destruct j; cbn [axis_eqb]; ring.
+Qed.
+
+End Momentum.
